@@ -297,7 +297,9 @@ RestartCrash(k) ==
 (*               the cursor reaches the wallet's tip the wallet is ready.  *)
 (*  RemoveStep : deletes every record of the wallet; the wallet is gone.   *)
 (***************************************************************************)
-Busy == Len(tasks) >= 3
+\* the task the worker has taken and holds between the two phases of a removal (RemoveStepA) is not in the queue
+Held == tasks # <<>> /\ Head(tasks)[1] = "remove2"
+Busy == Len(tasks) - (IF Held THEN 1 ELSE 0) >= 3
 
 Import(w) ==
     /\ up /\ status[w] = "absent" /\ ~Busy
@@ -350,6 +352,22 @@ RemoveStep ==
        /\ tasks' = Tail(tasks)
        \* pending transactions that pay the wallet and no other wallet of this instance go with it
        \* (RemoveRelevantTx finds them through the wallet's pending credits)
+       /\ pend' = {t \in pend : ~PaysTo(t, {w}) \/ PaysTo(t, {x \in Wallets \ {w} : status[x] # "absent"})}
+    /\ UNCHANGED <<chainVars, wchain, wmem, memp, wexp, up, cursor, faulted>>
+
+\* The same removal at the grain of its phases.  Phase 1 (asyncRemove-1: balance, unspent, address and history
+\* records of the wallet go) and the rounds of phase 2 (credits, debits, transaction records, status record,
+\* keystore) are separate suspend / resume windows: block steps fall between them.  The worker holds the task
+\* in between ("remove2" at the head of tasks stands for that).
+RemoveStepA ==
+    /\ up /\ tasks # <<>> /\ Head(tasks)[1] = "remove"
+    /\ tasks' = <<<<"remove2", Head(tasks)[2]>>>> \o Tail(tasks)
+    /\ UNCHANGED <<chainVars, wchain, pend, wmem, memp, wexp, up, status, cursor, faulted>>
+RemoveStepB ==
+    /\ up /\ tasks # <<>> /\ Head(tasks)[1] = "remove2"
+    /\ LET w == Head(tasks)[2] IN
+       /\ status' = [status EXCEPT ![w] = "absent"]
+       /\ tasks' = Tail(tasks)
        /\ pend' = {t \in pend : ~PaysTo(t, {w}) \/ PaysTo(t, {x \in Wallets \ {w} : status[x] # "absent"})}
     /\ UNCHANGED <<chainVars, wchain, wmem, memp, wexp, up, cursor, faulted>>
 
